@@ -82,6 +82,14 @@ func checkC08(x *X, c *Case, strict bool) *Outcome {
 				o.Viol = viol(pk, &rc, kind, d, describeRef(ref), describeResp(resp))
 				return o
 			}
+			if !once && !nomatch {
+				// (which messages are reported is fixed even when a left-recursive rule is invoked
+				// again at an offset; their order is not)
+				if d := compareErrorSets(ref, resp); d != "" {
+					o.Viol = viol(pk, &rc, "lr_error_set", d, describeRef(ref), describeResp(resp))
+					return o
+				}
+			}
 			if once && !rc.Opts.Memoize {
 				// errors and state of the final, non-extending attempt must not be retained
 				if !nomatch {
